@@ -143,7 +143,15 @@ def gen_case(rng, now_t, key, tag, hop=False):
     body = b""
     if method in ("PUT", "POST"):
         body = rng.choice([b"", b"<log/>", b"{\"a\": 1}"])
+    trailers = None
+    if rng.random() < 0.08:
+        trailers = [(n if rng.random() < 0.4 else rc.rand_case(rng, n), gen_value(rng, n, now_t, guid) or "x")
+                    for n in rng.sample(list(OWNED), rng.randint(1, 3))] + ([("x-checksum", "abc")] if rng.random() < 0.5 else [])
+        if rng.random() < 0.7:
+            headers.append(("Trailer", ", ".join(k for k, _ in trailers)))
+        body = rng.choice([b"", b"<log/>", b"0123456789" * 40])
     return {"tag": tag, "method": method, "target": target, "headers": headers, "uid": uid, "is_admin": is_admin, "hop": hop,
+            "trailers": trailers,
             "after_close": False, "dest": dest, "body": body, "key": key, "key_is_hex": bool(key) and re.fullmatch(r"([0-9a-fA-F]{2})*", key["key"]) is not None}
 
 
@@ -196,7 +204,7 @@ def minute_leg(ctx, rng, now_t):
     for k, gap in enumerate((59700, 60000, 60300)):
         xs = [gen_case(rng, now_t, None, "m%d-%d" % (k, i)) for i in range(3)]
         for i, c in enumerate(xs):
-            c.update({"scenario": k, "conn": 0, "req": i, "uid": 0, "is_admin": 1, "dest": e2e.IMDS})
+            c.update({"scenario": k, "conn": 0, "req": i, "uid": 0, "is_admin": 1, "dest": e2e.IMDS, "trailers": None})
             if i == 2 and rng.random() < 0.5:
                 c["method"], c["target"] = rng.choice(EXEMPT_TARGETS)        # the exempt branch stamps a date too
         reqs = [e2e.req(case_request(xs[0]), ops_after=[{"op": "sleep_ms", "ms": 1200}]),
@@ -222,7 +230,40 @@ def minute_leg(ctx, rng, now_t):
 
 
 def case_request(c):
+    if c.get("trailers") is not None:
+        # a chunked request whose TRAILER section (after the last chunk) carries fields under the proxy-owned names
+        raw = e2e.http_request(c["method"], c["target"], c["headers"] + [("Transfer-Encoding", "chunked")], body=c["body"],
+                               chunked=[max(1, len(c["body"]) // 2 + 1)])
+        assert raw.endswith(b"0\r\n\r\n")
+        return raw[:-2] + "".join("%s: %s\r\n" % kv for kv in c["trailers"]).encode("latin-1") + b"\r\n"
     return e2e.http_request(c["method"], c["target"], c["headers"], body=c["body"])
+
+
+def trailer_fields(raw):
+    """[(lower name, value)] of the trailer section of a raw chunked HTTP/1.1 message (empty for any other message)"""
+    he = raw.find(b"\r\n\r\n")
+    if he < 0 or b"chunked" not in raw[:he].lower():
+        return []
+    pos = he + 4
+    while True:
+        le = raw.find(b"\r\n", pos)
+        if le < 0:
+            return []
+        try:
+            size = int(raw[pos:le].split(b";")[0].strip(), 16)
+        except ValueError:
+            return []
+        pos = le + 2
+        if size == 0:
+            break
+        pos += size + 2
+    out = []
+    for line in raw[pos:].split(b"\r\n"):
+        if not line:
+            break
+        k, _, v = line.decode("latin-1").partition(":")
+        out.append((k.strip().lower(), v.strip()))
+    return out
 
 
 # ------------------------------------------------------------------------------------------
@@ -245,7 +286,7 @@ def run(ctx):
             c["scenario"], c["conn"], c["req"] = s, i, 0
             cases.append(c)
             reqs = [case_request(c)]
-            if rng.random() < 0.12:
+            if c["trailers"] is None and rng.random() < 0.12:     # (hyper's server closes a connection after a request with trailers)
                 # the host closes its side of the forwarding connection after answering; the client then sends ANOTHER request
                 # with spoofed owned headers on the same keep-alive connection (on the code as it is: 502/503, nothing relayed;
                 # a proxy that reconnects and resends must resend what it signed)
@@ -268,7 +309,7 @@ def run(ctx):
         for i in range(4):
             a = gen_case(rng, now_t, key, "t%d-%d" % (s, i))
             b = gen_case(rng, now_t, key, "t%d-%d-b" % (s, i), hop=rng.random() < 0.3)
-            a.update({"scenario": s, "conn": i, "req": 0})
+            a.update({"scenario": s, "conn": i, "req": 0, "trailers": None})
             b.update({"scenario": s, "conn": i, "req": 1, "uid": a["uid"], "is_admin": a["is_admin"], "dest": a["dest"], "after": len(cases)})
             cases += [a, b]
             conns.append(e2e.conn([e2e.req(case_request(a), ops_after=[{"op": "sleep_ms", "ms": rng.choice([2300, 2600, 3100])}]), case_request(b)],
@@ -285,13 +326,17 @@ def run(ctx):
             disagreements.append({"case": {"scenario": s}, "model": "scenario runs", "impl": {"error": r.get("error"), "panics": r.get("panics")}})
             continue
         for host in e2e.MOCKS:
-            for m in rc.relayed_requests(r, host):
-                tags = m["header"]("x-tag")
-                if tags:
-                    seen[tags[0]] = (host, m)
+            for uc in r["upstream"].get(host, []):
+                for (st, _, en) in uc["requests"]:
+                    m = e2e.parse_http(uc["bytes"][st:en])
+                    tags = m["header"]("x-tag") if m else []
+                    if tags:
+                        m["trailer_fields"] = trailer_fields(uc["bytes"][st:en])
+                        seen[tags[0]] = (host, m)
     exprs, eval_cases = [], []
     not_relayed_after_close = [0]
     n_spaced = [0]
+    n_trailer_hits = [0]
     for c in cases:
         got = seen.get(c["tag"])
         replay = {"scenario": e2e.jsonable(scenarios[c["scenario"]]), "tag": c["tag"],
@@ -311,10 +356,17 @@ def run(ctx):
         host, m = got
         hs = rc.hdr_list(m)
         c["impl_headers"] = hs
+        tr = m.get("trailer_fields") or []
+        if any(k in OWNED for k, _ in tr):
+            n_trailer_hits[0] += 1
+        c["impl_trailers"] = tr
         if host != c["dest"]:
             failures.append({"case": replay, "why": "request relayed to %s instead of %s" % (host, c["dest"]), "impl": hs})
         c["answered_t"] = answered_at(results, c)
-        why = prop_c05(c, hs, now_t, c["answered_t"])
+        # the property speaks of what the host SEES under the owned names: field lines of the header section and of the trailer section
+        why = prop_c05(c, hs + tr, now_t, c["answered_t"])
+        if why and tr:
+            why += " (field lines of the request's trailer section included: %r)" % tr
         if why is None and "after" in c and cases[c["after"]].get("impl_headers"):
             p0 = cases[c["after"]]
             d0, d1 = rc.values(p0["impl_headers"], DATE), rc.values(hs, DATE)
@@ -327,7 +379,9 @@ def run(ctx):
         now_v = dates[0] if len(dates) == 1 else "?"
         path, q = rc.split_target(c["target"])
         wire = [(k, rc.trim_ows(v)) for k, v in [("Host", "x")] + c["headers"]]
-        if c["body"] or c["method"] in ("POST", "PUT"):
+        if c.get("trailers") is not None:
+            wire.append(("Transfer-Encoding", "chunked"))
+        elif c["body"] or c["method"] in ("POST", "PUT"):
             wire.append(("Content-Length", str(len(c["body"]))))
         exprs.append("c05_case (%d)%%Z %s %s %s %s %s %s %s %s" % (
             c["is_admin"], cb(now_v), rc.coq_opt(c["key"]["key"] if c["key"] else None),
@@ -363,6 +417,8 @@ def run(ctx):
         # compared name by name (all values of a name, in order): the order of DIFFERENT names on the wire is not something the
         # property or its observers depend on (e.g. swapping the two inserts is harmless); Headers.others_order stays a theorem
         # about the model only
+        if c.get("impl_trailers") and any(k in OWNED for k, _ in c["impl_trailers"]):
+            disagreements.append({"case": replay, "model": "no field under a proxy-owned name behind the body", "impl": c["impl_trailers"]})
         if by_name(mh) != by_name(hs):
             disagreements.append({"case": replay, "model": mh, "impl": hs})
 
@@ -396,6 +452,7 @@ def run(ctx):
                                "second_request_after_host_closed_upstream": sum(1 for c in cases if c["after_close"]),
                                "of_which_refused_502_503_unrelayed": not_relayed_after_close[0],
                                "keep_alive_pairs_spaced_by_2s_or_more_compared": n_spaced[0],
+                               "chunked_requests_with_owned_names_in_the_trailer_section": sum(1 for c in cases if c.get("trailers")),
                                "exempt_targets": sum(1 for c in cases if rc.is_exempt(c["method"], c["target"])),
                                "owned_header_multiplicities": dict(sorted(dist.items(), key=lambda kv: -kv[1])[:12])},
     })
